@@ -11,6 +11,7 @@ FIX = [  # (substring of commit subject, property, key at the time, what failed)
  ('deep copy keeps one copy of a node referenced through plain and defined pointer types', 'C03', 'split:ptr:deepcopy:plain-and-defined-pointer-to-one-node', 'type Ref *Node; n := &Node{}; Cfg{A: n /* *Node */, B: n /* Ref */, C: n /* *Node */}: the result had A != C although identical in the input (second copy made for the Ref-typed reference, registerPair then overwrote the *Node memo entry)'),
  ('env source panicked on a set variable for a user-declared pointer', 'C16', 'panic:types:env+ptr-to-collection-leaves:transform.populateStruct', 'Cfg{Tags *[]string} (or a pointer to a map) with TAGS=a,b through env.Source: reflect.Set: value of type []string is not assignable to type *[]string in populateStruct (top-level field); an error instead of the value one struct level down'),
  ('an array in an interface field', 'C03', 'split:any-set-by-two-layers', 'array in an interface field set by two layers was deep-copied twice: Any[0] != Kids[0] although identical in the source value'),
+ ('a Blank whose Watcher source failed to take over', 'C08', 'monitor-did-not-exit:all-done:blank-done-after-rejected-watcher-setsource', 'Blank.SetSource(watcher) whose first value is refused by Verify (or whose propagation/Watch fails) left the Blank believing the never-started Watcher owned the slot: Blank.Done became a no-op and later SetSource calls were refused, so after every watching source had called Done the monitor and callback goroutines never exited'),
  ('API calls racing', 'C08', 'crash:Dials.submitEventBlocking', 'RegisterCallback/unregister after or during monitor shutdown panicked with send on closed channel'),
  ('unregistering a callback', 'C08', 'crash:callbackMgr.runCBs', 'second call of an UnregisterCBFunc crashed the process (makeslice: cap out of range)'),
  ('errors reported by watching', 'C09', 'source-error-not-delivered', 'source ReportError dropped whenever CallGlobalCallbacksAfterVerificationEnabled was set or verification was delayed'),
